@@ -48,7 +48,45 @@ static void esc(const char *s, size_t n)
 	}
 }
 
+#define MAXVALS 4096
+#define MAXTIMS 64
+static struct { char iso[32]; unsigned flags; char biz[32]; } vals[MAXVALS];
+static int nvals;
+static char tims[MAXTIMS][32];
+static int ntims;
+static unsigned long seq;
 static sigjmp_buf jb;
+
+/* one round trip; prints the result line when it failed or when echo is set; tag (if any) is appended as a last column */
+static void one_case(const char *f, const char *iso, unsigned ns, int K, int echo, const char *tag)
+{
+	char buf[1024], cv[96], cp[96];
+	char *ep = NULL;
+	struct dt_dt_s v, p;
+	size_t len;
+	v = dt_strpdt(iso, NULL, NULL);
+	if (dt_unk_p(v)) { printf("?\t%s\n", iso); return; }
+	if (ns && (dt_sandwich_p(v) || dt_sandwich_only_t_p(v))) v.t.hms.ns = ns;
+	if (K && (dt_sandwich_p(v) || dt_sandwich_only_d_p(v))) {
+		struct dt_dt_s c = dt_dtconv((dt_dttyp_t)K, v);
+		if (!dt_unk_p(c)) v = c;
+	}
+	len = dt_strfdt(buf, sizeof buf, f, v);
+	if (len >= sizeof buf) len = sizeof buf - 1;
+	buf[len] = 0;
+	p = dt_strpdt(buf, f, &ep);
+	canon(cv, sizeof cv, v);
+	canon(cp, sizeof cp, p);
+	{
+		long used = ep ? ep - buf : -1;
+		int ok = !strcmp(cv, cp) && used == (long)len && len > 0;
+		if (ok && !echo) return;
+		printf("%c\t", ok ? '=' : '!');
+		esc(buf, len);
+		printf("\t%ld\t%zu\t%s\t%s\t%s\n", used, len, cv, cp, tag);
+	}
+}
+
 static void on_abrt(int sig)
 {
 	(void)sig;
@@ -65,7 +103,7 @@ int main(void)
 		size_t n = strlen(line);
 		if (sigsetjmp(jb, 1)) {
 			/* an assertion of the library fired on this case */
-			printf("!\tABORT\t-1\t0\t-\tABORT\n");
+			printf("!\tABORT\t-1\t0\t-\tABORT\t-\n");
 			continue;
 		}
 		while (n && line[n - 1] == '\n') line[--n] = 0;
@@ -79,34 +117,56 @@ int main(void)
 		} else if (line[0] == 'L' && (line[1] == 'I' || line[1] == 'F')) {
 			const char *l = strcmp(line + 3, "-") ? line + 3 : NULL;
 			if (line[1] == 'I') setilocale(l); else setflocale(l);
-		} else if (line[0] == 'V' || line[0] == 'D') {
-			char iso[64], buf[1024], cv[96], cp[96];
+		} else if (line[0] == 'V' || (line[0] == 'D' && line[1] == ' ')) {
+			char iso[64];
 			unsigned ns = 0;
-			char *ep = NULL;
-			const char *f = line[0] == 'V' ? fmt : NULL;
-			struct dt_dt_s v, p;
-			size_t len;
 			if (sscanf(line + 2, "%63s %u", iso, &ns) < 1) continue;
-			v = dt_strpdt(iso, NULL, NULL);
-			if (dt_unk_p(v)) { printf("?\t%s\n", iso); continue; }
-			if (ns && (dt_sandwich_p(v) || dt_sandwich_only_t_p(v))) v.t.hms.ns = ns;
-			if (K && (dt_sandwich_p(v) || dt_sandwich_only_d_p(v))) {
-				struct dt_dt_s c = dt_dtconv((dt_dttyp_t)K, v);
-				if (!dt_unk_p(c)) v = c;
+			one_case(line[0] == 'V' ? fmt : NULL, iso, ns, K, 1, "");
+		} else if (!strncmp(line, "D+ ", 3)) {
+			/* D+ <iso> <flags> <bizda text|-> : value list for RUN; flags 1 century window, 2 decade window, 4 business day */
+			if (nvals < MAXVALS && sscanf(line + 3, "%31s %u %31s", vals[nvals].iso, &vals[nvals].flags, vals[nvals].biz) == 3) nvals++;
+		} else if (!strncmp(line, "T+ ", 3)) {
+			if (ntims < MAXTIMS && sscanf(line + 3, "%31s", tims[ntims]) == 1) ntims++;
+		} else if (!strncmp(line, "RUN ", 4)) {
+			/* RUN <kind d|t|x> <win 0|1|2> <biz> <kmask> <hasN> : all admissible values x held representations on the current format;
+			 * prints failures and every 9973rd success, then "#<TAB>count" */
+			char kind;
+			unsigned win, biz, kmask, hasn;
+			static const unsigned NSV[] = {0, 1, 123456789, 999999999, 100000000, 10};
+			long cnt = 0;
+			if (sscanf(line + 4, "%c %u %u %u %u", &kind, &win, &biz, &kmask, &hasn) != 5) continue;
+			if (kind == 't') {
+				for (int i = 0; i < ntims; i++) {
+					char tag[48];
+					unsigned ns = hasn ? NSV[i % 6] : 0;
+					snprintf(tag, sizeof tag, "0 %s %u", tims[i], ns);
+					cnt++;
+					one_case(fmt, tims[i], ns, 0, ++seq % 9973 == 0, tag);
+				}
+			} else {
+				for (int k = 0; k < 7; k++) {
+					if (!(kmask >> k & 1)) continue;
+					if (k == 3 && kind != 'd') continue;
+					for (int i = 0; i < nvals; i++) {
+						char v[96], tag[128];
+						unsigned ns = 0;
+						if (win == 1 && !(vals[i].flags & 1)) continue;
+						if (win == 2 && !(vals[i].flags & 2)) continue;
+						if ((biz || k == 3) && !(vals[i].flags & 4)) continue;
+						if (kind == 'd') {
+							snprintf(v, sizeof v, "%s", k == 3 ? vals[i].biz : vals[i].iso);
+						} else {
+							snprintf(v, sizeof v, "%sT%s", vals[i].iso, tims[i % ntims]);
+							ns = hasn ? NSV[i % 6] : 0;
+						}
+						snprintf(tag, sizeof tag, "%d %s %u", k, v, ns);
+						cnt++;
+						one_case(fmt, v, ns, k == 3 ? 0 : k, ++seq % 9973 == 0, tag);
+					}
+				}
 			}
-			len = dt_strfdt(buf, sizeof buf, f, v);
-			if (len >= sizeof buf) len = sizeof buf - 1;
-			buf[len] = 0;
-			p = dt_strpdt(buf, f, &ep);
-			canon(cv, sizeof cv, v);
-			canon(cp, sizeof cp, p);
-			{
-				long used = ep ? ep - buf : -1;
-				int ok = !strcmp(cv, cp) && used == (long)len && len > 0;
-				printf("%c\t", ok ? '=' : '!');
-				esc(buf, len);
-				printf("\t%ld\t%zu\t%s\t%s\n", used, len, cv, cp);
-			}
+			printf("#\t%ld\n", cnt);
+			fflush(stdout);
 		} else if (line[0] == '.') {
 			printf(".\n");
 			fflush(stdout);
